@@ -17,25 +17,50 @@ import tempfile
 import vlib
 from gen import intervals as G
 from gen import c11gen as T
+from props import c11ext as X
 
 ID = "C11"
 PROPS = ["IsoVerif/Props/C11.lean", "IsoVerif/Props/C11Lists.lean", "IsoVerif/Props/C11Mirror.lean",
-         "IsoVerif/Props/C11Profiles.lean", "IsoVerif/Props/C11Polya.lean", "IsoVerif/Props/C11Canonical.lean"]
+         "IsoVerif/Props/C11Profiles.lean", "IsoVerif/Props/C11Polya.lean", "IsoVerif/Props/C11Canonical.lean",
+         # equivariance of the merged models (props/c11ext.py + props/c11x_*.py)
+         "IsoVerif/Props/C11Cigar.lean", "IsoVerif/Props/C11PolyA16.lean",
+         "IsoVerif/Props/C11Regions.lean", "IsoVerif/Props/C11Counts.lean", "IsoVerif/Props/C11Ids.lean",
+         "IsoVerif/Props/C11Sites.lean", "IsoVerif/Props/C11Assign.lean",
+         "IsoVerif/Props/C11Resolver.lean", "IsoVerif/Props/C11Graph.lean",
+         "IsoVerif/Props/C11MirrorLists.lean", "IsoVerif/Props/C11MirrorReadProfiles.lean",
+         "IsoVerif/Props/C11Bed.lean", "IsoVerif/Props/C11Corrector.lean", "IsoVerif/Props/C11Gtf.lean",
+         "IsoVerif/Props/C11AssignMirror.lean", "IsoVerif/Props/C11Strand.lean"]
 TARGETS = ["IsoVerif.Props.C11", "IsoVerif.Props.C11Lists", "IsoVerif.Props.C11Mirror", "IsoVerif.Props.C11Profiles",
-           "IsoVerif.Props.C11Polya", "IsoVerif.Props.C11Canonical"]
-GEN_DEPS = ["Prims", "Enums", "EventClasses", "Constants"]
+           "IsoVerif.Props.C11Polya", "IsoVerif.Props.C11Canonical",
+           "IsoVerif.Props.C11Cigar", "IsoVerif.Props.C11PolyA16",
+           "IsoVerif.Props.C11Regions", "IsoVerif.Props.C11Counts", "IsoVerif.Props.C11Ids", "IsoVerif.Props.C11Sites",
+           "IsoVerif.Props.C11Assign", "IsoVerif.Props.C11Resolver", "IsoVerif.Props.C11Graph",
+           "IsoVerif.Props.C11MirrorLists", "IsoVerif.Props.C11MirrorReadProfiles",
+           "IsoVerif.Props.C11Bed", "IsoVerif.Props.C11Corrector", "IsoVerif.Props.C11Gtf",
+           "IsoVerif.Props.C11AssignMirror", "IsoVerif.Props.C11Strand"]
+GEN_DEPS = ["Prims", "Enums", "EventClasses", "Constants", "CigarClasses", "Strategies", "Resolver", "ModelConstruction", "Corrector"]
 LEVEL = "proof"
 RULE = ("relations S.<fn> (shift k) and M.<fn> (mirror L) on: exhaustive interval pairs over 0..U x delta 0..3 x "
         "k in {-7,1,255,256,1000} / L in {U+1, 40}; all sorted disjoint lists of <=3 intervals over 1..U and sampled pairs; "
         "seeded random genome-scale lists; a case is non-trivial when the model's two sides are equal, not an error, "
-        "and equal to the implementation's two sides; distinct by (relation, input)")
+        "and equal to the implementation's two sides; distinct by (relation, input); merged models (props/c11ext.py, "
+        "props/c11x_*.py): relations S.<fn> / M.<fn> evaluated through the owning property's driver ops and adapters on that "
+        "property's generators (exhaustive small CIGARs, exon lists x tail positions, 16 tail combinations x assignment "
+        "types, coverage / cluster sets with k multiple of 256, C01 worlds, C04 graph states, C08 record lists, C14/C03 "
+        "corrector / BED / GTF cases) + the inputs of every _witness theorem (must fail on model and code)")
 TRUSTED = ["Gen/Prims.lean, Gen/Enums.lean, Gen/EventClasses.lean are syntax-directed translations of src/common.py and "
            "src/isoform_assignment.py (cross-checked against the Python objects each run)",
            "Model/C11Symmetry.lean `swapLR` pairing is compared with the enum's member names each run",
-           "the pipeline-level clauses (whole-run shift / reflection) are searched by metamorphic runs, not proved"]
+           "the pipeline-level clauses (whole-run shift / reflection) are searched by metamorphic runs, not proved",
+           "merged models: the other properties' Model/*.lean and props/Cxx.py adapters are used unchanged; the Python twins of "
+           "the Model/C11Sym*.lean transformations are compared with the Lean definitions through C11.T.* on every run"]
 ASSUMPTIONS = ["CPython int semantics = Lean Int", "float results compared as exact fractions num/den (1e-9)",
                "coordinates and shifted/mirrored coordinates avoid the code's sentinel -1 (stated as hypotheses of the theorems)",
                "reflection of list sweeps is stated for sorted disjoint well-formed lists (as produced from alignments/annotations)",
+               "merged models: BAM coordinates are non-negative before and after a shift (get_read_blocks truthiness, the "
+               "collector's fetch window), shifts of the region splitter are multiples of COVERAGE_BIN (the property's own "
+               "quantifier), a gene is not within the fake-terminal-exon reach of the chromosome start (sentinel used as a "
+               "coordinate in detect_reference_exons_beyond_polya: hypotheses FarOriginA/T, SentinelInert*)",
                "EndTie inputs (a block sharing exactly one end with a known feature and shorter than the overlap threshold) "
                "are outside the property's quantifier (exact positional tie); the asymmetry is proved as a witness"]
 
@@ -236,19 +261,23 @@ def in_domain(name, kw):
     if fn == "split_exons":
         return all(_wf(e) for e in kw["l"]) and all(x != -1 and y + 1 != -1 for x, y in kw["l"] + T.mirror_l(L, _tl(kw["l"])))
     if fn == "truncate_read_to_polya":
-        l, pa, pt = kw["l"], kw["pa"], kw["pt"]
-        if not (_sd(l) and l):
+        l, pa, pt = _tl(kw["l"]), kw["pa"], kw["pt"]
+        # hypotheses of mirror_dual_truncateReadToPolya (Props/C11MirrorLists.lean): well-formed exons (sorted or not),
+        # each scan finds an exon, no tail mirrored onto the sentinel, tails not crossed
+        if not all(_wf(e) for e in l):
             return False
-        # the domain in which the function is used / specified (C19): a tail position inside the read span, one side only
-        if pa != -1 and pt != -1:
+        if pa != -1 and not (any(e[0] < pa for e in l) and L + 1 - pa != -1):
             return False
-        if pa != -1 and not l[0][0] < pa <= l[-1][1]:
+        if pt != -1 and not (any(pt < e[1] for e in l) and L + 1 - pt != -1):
             return False
-        if pt != -1 and not l[0][0] <= pt < l[-1][1]:
-            return False
-        return all(p == -1 or L + 1 - p != -1 for p in (pa, pt))
+        return pa == -1 or pt == -1 or pt < pa
     if fn == "isoform_profile":
-        return _sd(kw["tf"]) and kw["features"] == sorted(kw["features"])
+        # hypotheses of mirror_dual_setProfiles_equal / _contains (Props/C11MirrorLists.lean)
+        feats, tf = _tl(kw["features"]), _tl(kw["tf"])
+        if kw["cmp"] == "equal":
+            it = iter(feats)
+            return len(set(feats)) == len(feats) and all(f in it for f in tf)      # tf is a sub-list (same order)
+        return _sd(feats) and _sd(tf) and all(any(f[0] <= k_[0] and k_[1] <= f[1] for k_ in feats) for f in tf)
     if fn in ("overlapping_profile", "nonoverlapping_profile"):
         return profile_mirror_domain(fn, kw)
     return True
@@ -560,6 +589,8 @@ def correspondence(ctx):
             ctx.sample({"relation": name, "input": vlib.canon(kw), "model": mo, "impl": {"lhs": il, "rhs": ir}})
     if not ctx.samples and cases:
         ctx.sample({"relation": cases[0][0], "input": vlib.canon(cases[0][1]), "model": outs[0]})
+    # 5. equivariance relations of the merged models (props/c11ext.py + props/c11x_*.py)
+    X.correspondence(ctx)
 
 
 def polya_model_correspondence(ctx):
@@ -1472,6 +1503,11 @@ def oracle(ctx, disagreements, broken):
                   "has_polyt": False, "k": 3}
             _run(ctx, "strand_detection", dict(kw, what="strand"), lambda i: strand_case(i))
             n += 1
+        elif name.startswith(("S.", "M.")) and "par" in inp and "kw" in inp:
+            r = X.oracle_relation(name, inp["par"], inp["kw"])
+            n += 1
+            if r:
+                _fail(ctx, "xrel:" + name, {"xrel": name, "par": inp["par"], "kw": inp["kw"]}, r)
         elif name.startswith(("S.", "M.")) and ("k" in inp or "L" in inp):
             _run(ctx, "relation:" + name, {"relation": name, "args": inp},
                  lambda i: (lambda r: ("relation:" + i["relation"], r) if r else None)(oracle_relation(i["relation"], i["args"])))
@@ -1485,6 +1521,8 @@ def oracle(ctx, disagreements, broken):
         n += 1
         if r:
             _fail(ctx, "relation:" + name, {"relation": name, "args": kw}, r)
+    # O1x relations of the merged models on the real functions
+    X.oracle(ctx, _fail)
     # O2 enum tables
     for kind, inp, detail in oracle_event_tables():
         _fail(ctx, kind, inp, detail)
@@ -1538,6 +1576,8 @@ def replay(ctx, failure):
         return k_ == kind or kind is None
 
     try:
+        if "xrel" in inp:
+            return X.replay(inp)
         if "relation" in inp:
             return oracle_relation(inp["relation"], inp["args"]) is not None
         if what == "polya_pair":
